@@ -34,9 +34,12 @@ TECHNIQUE = (
 RULE = (
     "case = one string: (i) each enumerated code point c placed in each context template, (ii) each word of <=k "
     "tokens of the markup alphabet M placed in the contexts '{}' and 'A{}B'; canonical = the string itself "
-    "(strings of (ii) already produced by (i) are skipped); (v) one *sequence* per (representative character of each "
-    "class latin1-named / bmp-named / bmp-unnamed / astral / C1) x charset x order (handler first then all filters, or "
-    "filters first then handler), each in a fresh interpreter so that step 1 is the first use in the process. Every case runs through every operation as a direct call "
+    "(strings of (ii) already produced by (i) are skipped); (v) two-step *sequences*, each in a fresh interpreter so that "
+    "step 1 is the first use in the process, every pair in both orders: handler <-> all filters per (representative "
+    "character of each class latin1-named / bmp-named / bmp-unnamed / astral / C1) x charset; render with "
+    "encoding_errors strict|replace|ignore <-> htmlentityreplace per charset; h x u entity trim on two kinds of value "
+    "with the same text (plain str, Markup, other str subclass, object with __html__); decode.<enc1> <-> decode.<enc2> "
+    "on the same values. Every case runs through every operation as a direct call "
     "(h x u entity trim; decode.utf8/latin1/ascii on str, bytes, other object; str.encode(cs,'htmlentityreplace') for 5 "
     "charsets); the template routes (${v|f}, ${v|n,decode.X}, Template(output_encoding=cs, encoding_errors=...).render) "
     "run on every case in thorough and, in quick, on the cases of the first two contexts and all words (decode "
@@ -51,11 +54,12 @@ ASSUMPTIONS = [
     "the reference decoder knows &name; (html.entities name2codepoint / html5), &#N; and &#xH; with no HTML5 remapping; html.unescape is used as a second decoder only where it does not remap",
     "decode.<enc> on bytes that are not valid in <enc> is DONT_CARE (UnicodeDecodeError or any str accepted)",
     "CPython str, re, codecs, html, urllib.parse are trusted",
-    "process history: the grid runs in long-lived workers (any order-dependent failure is located by core.find_prelude and reported with its prelude); order independence itself is checked on the sequence family only (one earlier step, 5/20 representative characters), not for every pair of cases",
+    "process history: the grid runs in long-lived workers (any order-dependent failure is located by core.find_prelude and reported with its prelude); order independence itself is checked on the sequence family only (one earlier step: handler/filters, error policies per charset, value kinds with equal text, decode encodings), not for every pair of cases",
+    "h on a value that declares itself safe (Markup, object with __html__) is DONT_CARE between the text and its escaped form; a standard encoding_errors policy is judged against str.encode(cs, policy) (the documented meaning of the parameter), strict raising UnicodeEncodeError",
 ]
 BOUNDS = {
     "quick": {
-        "sequences": "5 characters (one per class, picked by the seed) x 5 charsets x 2 orders = 50 fresh interpreters",
+        "sequences": "handler/filters 5 characters (one per class, picked by the seed) x 5 charsets; policies 4 charsets x {strict,replace,ignore}; 6 pairs of value kinds; 3 pairs of decode encodings; x 2 orders = 92 fresh interpreters",
         "code_points": "U+0000..U+FFFF minus surrogates + first and last 256 of planes 1..16 (71680)",
         "contexts": ["{}", "A{}B", "{}{}", "&{};", " {}\n"],
         "word_len": 3,
@@ -65,7 +69,7 @@ BOUNDS = {
         "charsets": ["ascii", "latin-1", "cp1251", "shift_jis", "utf-8"],
     },
     "thorough": {
-        "sequences": "20 characters (4 per class) x 5 charsets x 2 orders = 200 fresh interpreters",
+        "sequences": "handler/filters 20 characters (4 per class) x 5 charsets; policies 4 charsets x 3; 6 pairs of value kinds; 3 pairs of decode encodings; x 2 orders = 242 fresh interpreters",
         "code_points": "every Unicode scalar value U+0000..U+10FFFF minus surrogates (1112064)",
         "contexts": ["{}", "A{}B", "{}{}", "&{};", " {}\n", "<{}>", "{}A{}", "&#{};"],
         "word_len": 4,
@@ -430,7 +434,7 @@ def _cls(c):
 ALL_PARTS = ("filters", "decode", "enc")
 
 
-def check_string(s, st, I, tmpl=True, parts=ALL_PARTS, charsets=None):
+def check_string(s, st, I, tmpl=True, parts=ALL_PARTS, charsets=None, decs=None):
     """run the operations of `parts` on one string; counts into st, returns the list of failures
     (op, route, sig, message, observed) without reporting them."""
     viol = []
@@ -474,6 +478,8 @@ def check_string(s, st, I, tmpl=True, parts=ALL_PARTS, charsets=None):
     # decode.<enc>: str, bytes, other object
     u8 = s.encode("utf-8")
     for std, alias, f, t_str, t_n in I["dec"] if "decode" in parts else ():
+        if decs is not None and std not in decs:
+            continue
         inputs = [("str", s, s), ("obj", _Obj(s), s)]
         try:
             inputs.append(("bytes-utf8", u8, u8.decode(std)))
@@ -563,8 +569,21 @@ def full_sig(op, sig):
     return "%s:%s" % ("htmlentityreplace" if op.startswith("enc.") else op, sig)
 
 
+def order_sig(op, suffix):
+    """one signature per order-dependent defect: the operation family + what has to precede it
+    (which detail of the result goes wrong is in the oracle text, not in the footprint)"""
+    if op.startswith("enc."):
+        fam = "htmlentityreplace"
+    elif op.startswith("policy."):
+        fam = "encoding_errors policy"
+    elif op.startswith("decode."):
+        fam = "decode"
+    else:
+        fam = op.split("[")[0]
+    return "%s:result differs%s" % (fam, suffix)
+
+
 MODNAME = "mc.props.c10"
-AFTER_ENC = ":after an earlier htmlentityreplace encode in the process"
 AFTER_CASE = ":after an earlier case in the process"
 MAX_PRELUDE_SEARCHES = 6  # per worker process
 _HIST = __import__("collections").deque(maxlen=40)  # the last cases of this process (across jobs)
@@ -603,7 +622,7 @@ def report_grid(s, viol, st, I, hist):
                 else:
                     suffix = AFTER_CASE
                 memo[full] = "located"
-                st.violation(full + suffix, dict(case, prelude=pre), "%s (%s): %s" % (op, route, msg), expected="see oracle", observed=observed)
+                st.violation(order_sig(op, suffix), dict(case, prelude=pre), "%s (%s): %s" % (op, route, msg), expected="see oracle", observed=observed)
                 continue
         if how == "alone":
             st.violation(full, case, "%s (%s): %s" % (op, route, msg), expected="see oracle", observed=observed)
@@ -625,12 +644,27 @@ def check_case(s, st, I, tmpl=True):
 
 
 # --------------------------------------------------------------------------
-# (v) sequences: the filters and the error handler share one XMLEntityEscaper (and whatever else
-# the process keeps); each sequence runs in a fresh interpreter so that its first step really is
-# the first use in the process.
+# (v) sequences: whatever the process keeps between calls (the shared XMLEntityEscaper, any memo or
+# cache keyed by charset / by value) must not change a result.  Each sequence is two steps run in a
+# fresh interpreter, so that step 1 really is the first use in the process; every pair is run in both orders.
+#   step kinds:  ["enc", cs]        str.encode(cs,'htmlentityreplace') + Template(..., that handler).render
+#                ["filters"]        h x u entity trim + decode.* (direct and template)
+#                ["policy", cs, P]  Template("${v}", output_encoding=cs, encoding_errors=P).render against str.encode(cs, P)
+#                ["kinds", K]       h x u entity trim on a value of kind K (plain str, Markup, other str subclass,
+#                                   object with __html__) carrying the same text
+#                ["decode", enc]    decode.<enc> on the same str / bytes / object
 
 POOL_C1 = ["\x85", "\x80", "\x9f", "\x91"]
-SEQ_ORDERS = {"enc-first": ("enc", "filters"), "filters-first": ("filters", "enc")}
+POLICIES = ["strict", "replace", "ignore"]
+KINDS = ["plain", "markup", "strsub", "htmlobj"]
+STEP_TEXT = {
+    "enc": "an earlier htmlentityreplace encode in the process",
+    "filters": "earlier filter calls in the process",
+    "policy": "an earlier render to the same charset with another encoding_errors",
+    "kinds": "an earlier call on another kind of value with the same text",
+    "decode": "an earlier decode.<other encoding> of the same value",
+}
+AFTER_ENC = ":after " + STEP_TEXT["enc"]
 
 
 def seq_chars(tier, seed):
@@ -648,6 +682,143 @@ def seq_strings(c, d):
     return [c, d["A"] + c + d["B"], c + c]
 
 
+def seq_groups(tier, seed):
+    """list of groups; a group = the two orders of one pair of steps: [label, strings, stepA, stepB]"""
+    d = data(seed)
+    groups = []
+    for cls, c in seq_chars(tier, seed):
+        for cs in CHARSETS:
+            groups.append(["handler/filters %s %s" % (cls, cs), seq_strings(c, d), ["enc", cs], ["filters"]])
+    mixed = [d["A"] + c + d["B"] for _, c in seq_chars("quick", seed)] + ["".join(c for _, c in seq_chars("quick", seed)), d["A"] + d["B"]]
+    for cs in CHARSETS[:4]:
+        for pol in POLICIES:
+            groups.append(["policy %s %s" % (cs, pol), mixed, ["policy", cs, pol], ["enc", cs]])
+    texts = ["<" + d["A"] + ">", d["A"] + "&" + d["B"], "'" + d["M"][15] + '"', d["A"] + d["B"], " " + d["A"] + "<\n"]
+    for i, k1 in enumerate(KINDS):
+        for k2 in KINDS[i + 1 :]:
+            groups.append(["kinds %s %s" % (k1, k2), texts, ["kinds", k1], ["kinds", k2]])
+    dtexts = [d["A"] + d["B"], d["M"][15], d["A"] + d["M"][16] + d["M"][17]]
+    for i, e1 in enumerate(("utf-8", "latin-1", "ascii")):
+        for e2 in ("utf-8", "latin-1", "ascii")[i + 1 :]:
+            groups.append(["decode %s %s" % (e1, e2), dtexts, ["decode", e1], ["decode", e2]])
+    return groups
+
+
+class _StrSub(str):
+    """a str subclass without __html__"""
+
+
+class _HtmlObj:
+    """not a str: carries markup it declares safe"""
+
+    def __init__(self, s):
+        self.s = s
+
+    def __html__(self):
+        return self.s
+
+    def __str__(self):
+        return self.s
+
+
+def make_kind(kind, text):
+    if kind == "plain":
+        return text
+    if kind == "markup":
+        import markupsafe
+
+        return markupsafe.Markup(text)
+    if kind == "strsub":
+        return _StrSub(text)
+    return _HtmlObj(text)
+
+
+def check_policy(s, st, I, cs, pol):
+    """Template.render with a standard error policy must be what str.encode gives (the documented meaning of encoding_errors)"""
+    from mako.template import Template
+
+    key = ("policy", cs, pol)
+    if key not in I:
+        I[key] = Template("${v}", output_encoding=cs, encoding_errors=pol).render
+    try:
+        exp = s.encode(cs, pol)
+    except UnicodeEncodeError:
+        exp = None
+    st.evaluations += 1
+    st.transitions += 1
+    st.oracles["policy"] += 1
+    op = "policy.%s.%s" % (cs, pol)
+    try:
+        out = I[key](v=s)
+    except UnicodeEncodeError as e:
+        if exp is None:
+            return []
+        return [(op, "template", "%s raises UnicodeEncodeError on text str.encode accepts" % pol, "render raises", str(e)[:200])]
+    except Exception as e:  # noqa
+        return [(op, "template", "%s raises %s" % (pol, type(e).__name__), "render raises", "%s: %s" % (type(e).__name__, str(e)[:200]))]
+    if exp is None:
+        return [(op, "template", "%s does not raise on unencodable text" % pol, "render with encoding_errors='strict' must raise UnicodeEncodeError as str.encode does", repr(out))]
+    if out != exp:
+        return [(op, "template", "%s output differs from str.encode" % pol, "render gives other bytes than str.encode(cs, errors)", repr(out))]
+    return []
+
+
+def check_kinds(text, st, I, kind):
+    from mako.template import Template
+
+    viol = []
+    v = make_kind(kind, text)
+    for name in ("h", "x", "u", "entity", "trim"):
+        if kind == "htmlobj" and name != "h":
+            continue  # not a string: only h is defined on it
+        key = ("ntmpl", name)
+        if key not in I:
+            I[key] = Template("${v | n,%s}" % name).render_unicode
+        op = name if kind == "plain" else "%s[%s]" % (name, kind)
+        for route, f in (("direct", I["direct"][name]), ("template", I[key])):
+            st.evaluations += 1
+            st.transitions += 1
+            st.oracles[name] += 1
+            try:
+                out = f(v) if route == "direct" else f(v=v)
+            except Exception as e:  # noqa
+                viol.append((op, route, "raises " + type(e).__name__, "%s raises" % name, "%s: %s" % (type(e).__name__, str(e)[:200])))
+                continue
+            if name == "h" and kind in ("markup", "htmlobj"):
+                # a value that declares itself safe: the statement is about plain strings; either answer is accepted
+                r = None if isinstance(out, str) and (str(out) == text or o_markup(name, text, out) is None) else ("neither the text nor its escaped form", "h on a self-declared safe value")
+            elif name in ("h", "x"):
+                r = o_markup(name, text, out)
+            elif name == "u":
+                r = o_url(text, out)
+            elif name == "entity":
+                r = o_entity(text, out, I["unescape"])
+            else:
+                r = o_trim(text, out)
+            if r is not None:
+                viol.append((op, route, r[0], r[1], str(out)))
+    return viol
+
+
+def run_step(step, strings, st, I):
+    out = []
+    for s in strings:
+        if step[0] == "enc":
+            viol = check_string(s, st, I, parts=("enc",), charsets=[step[1]])
+        elif step[0] == "filters":
+            viol = check_string(s, st, I, parts=("filters", "decode"))
+        elif step[0] == "policy":
+            viol = check_policy(s, st, I, step[1], step[2])
+        elif step[0] == "kinds":
+            viol = check_kinds(s, st, I, step[1])
+        elif step[0] == "decode":
+            viol = check_string(s, st, I, parts=("decode",), decs=[step[1]])
+        else:
+            raise ValueError(step)
+        out.extend((s, v) for v in viol)
+    return out
+
+
 def run_sequence(case):
     """executed in the fresh child: the steps in order; returns a JSON-able summary"""
     seed = case.get("seed", 0)
@@ -656,15 +827,10 @@ def run_sequence(case):
     I["dec_templates"] = "all"
     st = Stats()
     fails = []
-    for k, step in enumerate(SEQ_ORDERS[case["order"]]):
-        for s in seq_strings(case["c"], I["d"]):
-            if step == "enc":
-                viol = check_string(s, st, I, parts=("enc",), charsets=[case["cs"]])
-            else:
-                viol = check_string(s, st, I, parts=("filters", "decode"))
-            for op, route, sig, msg, observed in viol:
-                fails.append({"step": k, "s": s, "op": op, "route": route, "sig": sig, "msg": msg, "observed": observed})
-    return {"fails": fails, "evaluations": st.evaluations, "oracles": dict(st.oracles), "outcomes": dict(st.outcomes)}
+    for k, step in enumerate(case["steps"]):
+        for s, (op, route, sig, msg, observed) in run_step(step, case["strings"], st, I):
+            fails.append({"step": k, "s": s, "op": op, "route": route, "sig": sig, "msg": msg, "observed": observed})
+    return {"fails": fails, "evaluations": st.evaluations, "oracles": dict(st.oracles)}
 
 
 _SEQ_CHILD = (
@@ -691,52 +857,41 @@ def sequence_in_child(case):
     raise RuntimeError("sequence child died: rc=%s %s" % (pr.returncode, pr.stderr[-800:]))
 
 
-def _seq_key(f):
-    return (f["op"], f["route"], f["sig"], f["s"])
-
-
-def check_sequences(pairs, seed, st):
-    for cls, c, cs in pairs:
-        res = {}
-        for order in SEQ_ORDERS:
-            case = {"kind": "seq", "c": c, "cs": cs, "order": order, "seed": seed}
-            r = res[order] = sequence_in_child(case)
+def check_sequences(groups, seed, st):
+    for label, strings, sa, sb in groups:
+        res = []
+        for steps in ([sa, sb], [sb, sa]):
+            case = {"kind": "seq", "steps": steps, "strings": strings, "seed": seed}
+            r = sequence_in_child(case)
+            res.append((case, r))
             st.states += 1
             st.traces += 1
+            st.nontrivial += 1  # every sequence carries characters / values the second step must treat
             st.evaluations += r["evaluations"]
             st.transitions += r["evaluations"]
             st.oracles.update(r["oracles"])
             st.oracles["sequence"] += 1
-            try:
-                c.encode(cs)
-                handler = "handler idle"
-            except UnicodeEncodeError:
-                handler = "handler runs"
-            st.nontrivial += 1  # every sequence carries a non-ASCII character
-            st.outcomes["seq:%s:%s:%s:%s" % (order, cls, handler, "fails" if r["fails"] else "ok")] += 1
+            st.outcomes["seq:%s>%s:%s" % (steps[0][0], steps[1][0], "fails" if r["fails"] else "ok")] += 1
             st.extra["sequences"] = st.extra.get("sequences", 0) + 1
         # a failure that also happens as the very first step of a process is not order-dependent
-        first = {_seq_key(f) for r in res.values() for f in r["fails"] if f["step"] == 0}
-        for order, r in res.items():
+        first = {(tuple(case["steps"][0]), f["op"], f["route"], f["sig"], f["s"]) for case, r in res for f in r["fails"] if f["step"] == 0}
+        for case, r in res:
             for f in r["fails"]:
-                if f["step"] > 0 and _seq_key(f) in first:
-                    continue
                 sig = full_sig(f["op"], f["sig"])
                 if f["step"] > 0:
-                    sig += AFTER_ENC if SEQ_ORDERS[order][0] == "enc" else ":after earlier filter calls in the process"
-                case = {"kind": "seq", "c": c, "cs": cs, "order": order, "seed": seed, "step": f["step"], "s": f["s"], "op": f["op"], "route": f["route"]}
-                st.violation(sig, case, "sequence %s, step %d: %s (%s): %s" % (order, f["step"], f["op"], f["route"], f["msg"]), expected="see oracle", observed=f["observed"])
+                    if (tuple(case["steps"][f["step"]]), f["op"], f["route"], f["sig"], f["s"]) in first:
+                        continue
+                    sig = order_sig(f["op"], ":after " + STEP_TEXT[case["steps"][0][0]])
+                vcase = dict(case, step=f["step"], s=f["s"], op=f["op"], route=f["route"])
+                st.violation(sig, vcase, "sequence %r, step %d: %s (%s): %s" % (case["steps"], f["step"], f["op"], f["route"], f["msg"]), expected="see oracle", observed=f["observed"])
         if len(st.samples) < 2:
-            st.sample({"family": "v", "character": "U+%04X" % ord(c), "class": cls, "charset": cs, "orders": list(SEQ_ORDERS)})
+            st.sample({"family": "v", "group": label, "strings": strings, "steps": [sa, sb], "orders": "both"})
 
-
-# --------------------------------------------------------------------------
-# jobs
 
 _SAMPLE_CPS = {0x3C: 1, 0x85: 0, 0xE9: 2, 0x20AC: 3, 0x4E2D: 4, 0x1D11E: 1}
 NJOBS_CP = 48
 NJOBS_W = 16
-NJOBS_SEQ = 8
+NJOBS_SEQ = 16
 
 
 def plan(tier, seed):
@@ -745,8 +900,8 @@ def plan(tier, seed):
         jobs.append({"kind": "cp", "tier": tier, "seed": seed, "shard": i, "nshards": NJOBS_CP})
     for i in range(NJOBS_W):
         jobs.append({"kind": "words", "tier": tier, "seed": seed, "shard": i, "nshards": NJOBS_W})
-    pairs = [[cls, c, cs] for cls, c in seq_chars(tier, seed) for cs in CHARSETS]
-    seqjobs = [{"kind": "seq", "tier": tier, "seed": seed, "pairs": pairs[i::NJOBS_SEQ]} for i in range(NJOBS_SEQ)]
+    groups = seq_groups(tier, seed)
+    seqjobs = [{"kind": "seq", "tier": tier, "seed": seed, "groups": groups[i::NJOBS_SEQ]} for i in range(NJOBS_SEQ)]
     # heavy (cp) shards first, permuted by the seed
     k = seed % NJOBS_CP
     return jobs[k:NJOBS_CP] + jobs[:k] + seqjobs + jobs[NJOBS_CP:]
@@ -757,7 +912,7 @@ def run_job(job):
     t0 = time.time()
     tier, seed = job["tier"], job["seed"]
     if job["kind"] == "seq":
-        check_sequences([tuple(x) for x in job["pairs"]], seed, st)
+        check_sequences(job["groups"], seed, st)
         st.extra["worker_wall_s_seq"] = round(time.time() - t0, 1)
         return st
     I = impl(seed)
@@ -832,7 +987,7 @@ def replay(case):
         ok = core.isolated_replay(MODNAME, list(case["prelude"]) + [bare])
         return ok, {False: "reproduced after its prelude, in a fresh interpreter", True: "holds", None: "replay failed"}[ok]
     if case.get("kind") == "seq":
-        r = sequence_in_child({k: case[k] for k in ("kind", "c", "cs", "order", "seed")})
+        r = sequence_in_child({k: case[k] for k in ("kind", "steps", "strings", "seed")})
         for f in r["fails"]:
             if (f["step"], f["s"], f["op"], f["route"]) == (case["step"], case["s"], case["op"], case["route"]):
                 return False, "reproduced: step %d %s sig=%s observed=%r" % (f["step"], f["op"], f["sig"], f["observed"])
